@@ -233,15 +233,15 @@ theorem patchNode_strict_VE_nil (sw : Bool) (n : Json) (b r a af b' r' a' af' : 
 
 
 /-- the keyed-member search, given the invariance for the rest of the path -/
-theorem patchKeyed_congr (sw : Bool) (lf : UInt64) (po : List (String × Json)) (rest : Path)
+theorem patchKeyed_congr (sw tol : Bool) (lf : UInt64) (po : List (String × Json)) (rest : Path)
     (b r a af b' r' a' af' : List Json)
     (ih : ∀ n, patchNode sw false n rest b r a af = patchNode sw false n rest b' r' a' af') :
-    ∀ (xs pre : List Json), patchKeyed sw lf po rest b r a af pre xs
-      = patchKeyed sw lf po rest b' r' a' af' pre xs
-  | [], pre => by rw [patchKeyed.eq_def, patchKeyed.eq_def sw lf po rest b' r' a' af']
+    ∀ (xs pre : List Json), patchKeyed sw tol lf po rest b r a af pre xs
+      = patchKeyed sw tol lf po rest b' r' a' af' pre xs
+  | [], pre => by rw [patchKeyed.eq_def, patchKeyed.eq_def sw tol lf po rest b' r' a' af']
   | x :: xs, pre => by
-    rw [patchKeyed.eq_def sw lf po rest b r a af, patchKeyed.eq_def sw lf po rest b' r' a' af']
-    cases x <;> simp only [patchKeyed_congr sw lf po rest b r a af b' r' a' af' ih xs]
+    rw [patchKeyed.eq_def sw tol lf po rest b r a af, patchKeyed.eq_def sw tol lf po rest b' r' a' af']
+    cases x <;> simp only [patchKeyed_congr sw tol lf po rest b r a af b' r' a' af' ih xs]
     rw [ih]
 
 /-- (b) strict strategy, ANY document: along a value path `patchNode` sees the removed / added
@@ -292,7 +292,7 @@ theorem patchNode_strict_VE (sw : Bool) (b r a af b' r' a' af' : List Json)
       cases n with
       | obj kvs => simp
       | arr t xs =>
-        have hk := patchKeyed_congr sw (identObj [.set] po) po rest b r a af b' r' a' af'
+        have hk := patchKeyed_congr sw (keyedTol po xs) (identObj [.set] po) po rest b r a af b' r' a' af'
           (fun n => ih n hv) xs []
         cases t <;> simp only [pathMeta, effTag, dispatchTag, Bool.false_eq_true, if_false, hk]
       | _ => exact patchFresh_strict_VE _ _ _ _ _ _ _ _ _ _ hr ha
